@@ -1210,6 +1210,51 @@ def py_bound_out_of_type(sc, root_cls, stmts_with_prefix, values_by_path):
             return narrow_not(e[2], W, prefix) or narrow_not(e[3], W, prefix)
         return False
 
+    def mv(e, ctx, psg, prefix):
+        """the solver's value of a constant expression: (width, bit pattern) by the rules of Rand/Expr.sem (context-width
+        propagation, signed iff both operands signed, logical right shift, wrap-around)"""
+        wrap = lambda w, v: v & ((1 << w) - 1)
+        to_s = lambda w, u: u - (1 << w) if u >= (1 << (w - 1)) else u
+        conv = lambda sg, w, W, u: wrap(W, to_s(w, u) if sg else u)
+        k = e[0]
+        if k in ("lit", "enumlit", "u", "s"):
+            w, sg = typ(e, prefix)
+            W = max(ctx, w)
+            return W, (conv(psg, w, W, wrap(w, pv(e, prefix))) if w < W else wrap(w, pv(e, prefix)))
+        if k == "f":
+            w, sg = typ(e, prefix)
+            return w, wrap(w, pv(e, prefix))
+        if k in ("part", "bit"):
+            hi, lo = (e[2], e[3]) if k == "part" else (e[2], e[2])
+            w, u = mv(e[1], -1, False, prefix)
+            return hi - lo + 1, (u >> lo) & ((1 << (hi - lo + 1)) - 1)
+        if k == "not":
+            w, sg = typ(e[1], prefix)
+            W = max(ctx, w)
+            we, a = mv(e[1], W, sg, prefix)
+            return W, (1 << W) - 1 - conv(sg, we, W, a)
+        op = e[1]
+        (wl_, sl), (wr_, sr) = typ(e[2], prefix), typ(e[3], prefix)
+        W = max(ctx, wl_, wr_)
+        sg = sl and sr
+        wl, a = mv(e[2], W, sg, prefix)
+        wr, b = mv(e[3], W, sg, prefix)
+        a, b = conv(sg, wl, W, a), conv(sg, wr, W, b)
+        if op in MIRROR:
+            x, y = (to_s(W, a), to_s(W, b)) if sg else (a, b)
+            return 1, int({"Lt": x < y, "Le": x <= y, "Gt": x > y, "Ge": x >= y, "Eq": x == y, "Ne": x != y}[op])
+        if op in ("Div", "Mod"):
+            if b == 0:
+                raise ZeroDivisionError()
+            if sg:
+                x, y = to_s(W, a), to_s(W, b)
+                q = abs(x) // abs(y) * (1 if (x >= 0) == (y >= 0) else -1)
+                return W, wrap(W, q if op == "Div" else x - y * q)
+            return W, (a // b if op == "Div" else a % b)
+        if op in ("Sll", "Srl"):
+            return W, (0 if b >= W else (wrap(W, a << b) if op == "Sll" else a >> b))
+        return W, {"Add": wrap(W, a + b), "Sub": wrap(W, a - b), "Mul": wrap(W, a * b), "And": a & b, "Or": a | b, "Xor": a ^ b}[op]
+
     def mismatch(c, o, prefix):
         """constant side c compared with non-constant side o: does conversion to the comparison type change an integer value?"""
         (wc, sc_), (wo, so) = typ(c, prefix), typ(o, prefix)
@@ -1218,6 +1263,18 @@ def py_bound_out_of_type(sc, root_cls, stmts_with_prefix, values_by_path):
             return True
         if not repr_ok(pv(c, prefix), W, sg):
             return True
+        # some intermediate result differs (a logical right shift of a negative value, a product that wraps ...): the value the
+        # solver compares with is not the Python integer bounds inference computed
+        try:
+            w2, pat = mv(c, W, sg, prefix)
+            u = pat & ((1 << W) - 1) if w2 >= W else ((pat - (1 << w2) if sg and pat >= (1 << (w2 - 1)) else pat) & ((1 << W) - 1))
+            val = u - (1 << W) if sg and u >= (1 << (W - 1)) else u
+            if val != pv(c, prefix):
+                return True
+        except ZeroDivisionError:
+            raise
+        except Exception:  # noqa
+            pass
         return False
 
     for s, prefix in stmts_with_prefix:
